@@ -596,17 +596,16 @@ impl PredecessorTree {
         r.remaining() == self.pred@,
     @*/
 
-    /*@fn impl=PredecessorTree trait=Index name=index subst=Self::Output=>Option<usize>
-    requires
-        index < self.pred.len(),
+    // no precondition: an index outside the tree panics (safe indexing, rule E4b), it is never read
+    /*@fn impl=PredecessorTree trait=Index name=index subst=Self::Output=>Option<usize> safeindex
     ensures
+        index < self.pred.len(),
         *r == self.pred@[index as int],
     @*/
 
-    /*@fn impl=PredecessorTree trait=IndexMut name=index_mut subst=Self::Output=>Option<usize>
-    requires
-        index < old(self).pred.len(),
+    /*@fn impl=PredecessorTree trait=IndexMut name=index_mut subst=Self::Output=>Option<usize> safeindex
     ensures
+        index < old(self).pred.len(),
         *r == old(self).pred@[index as int],
         final(self).pred@ == old(self).pred@.update(index as int, *final(r)),
     @*/
